@@ -412,6 +412,27 @@ def gen_project(rng):
                 leaf[rng.choice(p.locales)] = ("plural", rng.random() < 0.3, {"one": [va, ("txt", " one")], "other": neutral_parts(rng) + [vb]})
             for o in {oa, ob} - {None}:
                 multi[o] = "multi_fmt:%s(%s+%s)(depth %d)" % (how, fa, fb, len(path))
+    # a plural declared with several forms in ONE locale only, the other locales declaring just `key_other` (which is then
+    # the plural `key`: second pass of the plural merging) - several forms only in a non-default locale and the lone
+    # `_other` in the default, or the other way round - at sub-key depth 0..3, with or without namespaces; no other plural
+    if nondefault and rng.random() < 0.3:
+        want = rng.choice([1, 1, 2, 3, 4])
+        cands = [len(path) for ns, path, leaf in p.all_leaves()]
+        depth = want if want in cands else rng.choice(cands)
+        c = pick_leaf(lambda ns, path: len(path) == depth)
+        if c is not None:
+            ns, path, leaf = c
+            ordinal = rng.random() < 0.3
+            full = rng.choice(nondefault) if rng.random() < 0.65 else p.default
+            some = lambda: neutral_parts(rng) + ([("var", "count", None, "")] if rng.random() < 0.5 else [])
+            forms = {f: some() for f in rng.sample(["zero", "one", "two", "few", "many"], rng.choice([1, 2, 3]))}
+            forms["other"] = some()
+            for loc in p.locales:
+                if loc == full:
+                    leaf[loc] = ("plural", ordinal, forms)
+                elif loc == p.default or rng.random() < 0.6:
+                    leaf[loc] = ("plural", ordinal, {"other": some()})          # written as the lone `key_other`
+            multi["Plurals"] = "lone_other:several_forms@%s(depth %d)" % ("default" if full == p.default else "nondefault", len(path) - 1)
     for opt in OPTIONS:
         if opt in multi:
             plan[opt] = multi[opt]                      # used there and nowhere else
